@@ -412,11 +412,12 @@ V({
 # --------------------------------------------------------------------------- V9
 V({
     "id": "V9",
-    "title": "lifetime_variance: Unifier::{push_lifetime_outlives_goals, unify_lifetime_var}, Variance::{xform, invert}, UniverseIndex::{can_see, root}",
+    "title": "lifetime_variance: Unifier::{push_lifetime_outlives_goals, unify_lifetime_var, relate_alias_ty}, Variance::{xform, invert}, UniverseIndex::{can_see, root}",
     "template": "v9_lifetime_variance.rs",
     "assumptions": [
         "V9: ena: unify_var_var on two unbound variables and unify_var_value on an unbound variable cannot fail and have the stated effect on the table view; universe_of_unbound_var reads the table",
         "V9: InEnvironment::new / WhereClause::cast / EnaVariable::to_lifetime / InferenceValue::from_lifetime are constructors (abstract views)",
+        "V9: relate_ty_ty is havoc: its outcome is an uninterpreted function of the unifier's state and its arguments (so relate_alias_ty's contract pins down the call it makes); InferenceTable::new_variable returns ena's next free variable, unknown to the table so far; AliasEq::cast / EnaVariable::to_ty are constructors",
         "V9: relate_lifetime_lifetime and the Ref/Dyn arms of relate_ty_ty are NOT verified (reference patterns are rejected by this Verus); the composite rule is a lemma over push_lifetime_outlives_goals + xform",
     ],
     "trusted": ["ena", "chalk-ir casts"],
